@@ -3,7 +3,9 @@ package checks
 import (
 	"fmt"
 	"regexp"
+	"strconv"
 	"strings"
+	"time"
 
 	"github.com/influxdata/influxql"
 	"verifharness/gen"
@@ -94,11 +96,84 @@ var c13Witness = []string{
 	"SELECT v FROM m WHERE f =~ /a/ + 1 AND g !~ /b/ * h",
 }
 
+// c13History: a long run of statements that differ in the values a library
+// might remember between calls (multi-literal regexes, zone names, names,
+// durations, date strings), every one through every operation, one after the
+// other in this process.
+func c13History(c *Ctx, n int) {
+	r := c.R
+	local := map[string]int64{}
+	for i := 0; i < n; i++ {
+		k := strconv.Itoa(i)
+		z := c04Zones[i%len(c04Zones)]
+		if _, err := time.LoadLocation(z); err != nil {
+			z = "UTC"
+		}
+		text := "SELECT mean(f" + k + "), /^fld" + k + "/ FROM m" + k + ", /^(ma" + k + "|mb" + k + ")$/ WHERE h =~ /^(a" + k + "|b" + k + "|c)$/ AND g !~ /^[xy]" + k + "$/ AND time > '2001-02-03T04:05:06Z' + " + strconv.Itoa(i+1) + "s AND time < now() - " + strconv.Itoa(i+1) + "m GROUP BY time(" + strconv.Itoa(i+1) + "s), /^t" + k + "/ TZ('" + z + "')"
+		c13One(c, text, 2000000+i, local)
+		local["history.statements"]++
+	}
+	r.MergeCounts(local)
+}
+
+func c13SafeString(st influxql.Statement) (out string) {
+	defer func() {
+		if recover() != nil {
+			out = "<unprintable>"
+		}
+	}()
+	return st.String()
+}
+
+// c13Stream: one parser reads statements one after the other and carries on
+// after errors (as a console does); the same faulty spelling comes again, and
+// whatever is accepted goes through every operation.
+func c13Stream(c *Ctx) {
+	r := c.R
+	local := map[string]int64{}
+	bad := []string{"h =~ /(/", "h =~ /a{2,1}/", "h !~ /[z-a]/", "time > now() - 99999999999w", "g = 'bad\\qescape'", "time(1x)", "h =~ $unbound", "f(1, 2", "d = 9223372036854775808ns * 2"}
+	for _, b := range bad {
+		stmt := "SELECT v FROM m WHERE " + b
+		text := stmt + " ; " + stmt + " ; SELECT mean(v) FROM m WHERE h =~ /ok/ GROUP BY time(1m) ; " + stmt
+		ps := influxql.NewParser(strings.NewReader(text))
+		for k := 0; k < 4; k++ {
+			var st influxql.Statement
+			var err error
+			if p, pv, stk := mon.Try(func() { st, err = ps.ParseStatement() }); p {
+				r.Violation("panic-in-operation", map[string]interface{}{"input": text, "op": "ParseStatement", "idx": -1, "why": fmt.Sprintf("statement %d of a stream read by one parser: %v", k+1, pv), "stack": stk})
+				break
+			}
+			r.Eval(1)
+			if err == nil {
+				for _, op := range Ops {
+					rg := mon.NewRng(c.Seed, "c13.stream."+op.Name, k)
+					if p, pv, stk := mon.Try(func() { op.Run(st, rg) }); p {
+						r.Violation("panic-in-operation", map[string]interface{}{"input": text, "op": op.Name, "idx": -1, "site": panicSite(stk), "why": fmt.Sprintf("statement %d of a stream read by one parser (accepted as %s): %s panicked: %v", k+1, trunc(c13SafeString(st), 120), op.Name, pv), "stack": stk})
+						break
+					}
+				}
+				local["stream.accepted-statements"]++
+			} else {
+				local["stream.rejected-statements"]++
+			}
+			tok := influxql.ILLEGAL
+			for tok != influxql.SEMICOLON && tok != influxql.EOF {
+				tok, _, _ = ps.ScanIgnoreWhitespace()
+			}
+		}
+	}
+	r.MergeCounts(local)
+}
+
 func checkC13(c *Ctx) (string, bool, []string) {
 	r := c.R
 	rule := fmt.Sprintf("every statement accepted from (a) all clause subsets of all 44 kinds, (b) random payloads, (c) the 'odd but accepted' generator (calls with any argument count, time() dimensions with 0-3 arguments of any kind, zero / negative intervals, duration arithmetic with fractional, zero and huge operands, wildcards / regexes / DISTINCT in argument positions, nested subqueries) (d) a fixed witness list and (e) byte/lexeme-mutated statements that the parser still accepts, each through %d public operations, every operation on a fresh re-parse. Non-trivial = statement accepted; distinct by text.", len(Ops))
 	assume := []string{"a recovered panic inside any listed operation is a violation; errors are fine", "operations: " + opNames()}
 	if c.Replay != nil {
+		if idx := replayInt(c, "idx"); idx >= 2000000 && idx < 2100000 {
+			c13History(c, idx-2000000+1) // the statements before it in this process matter
+			return rule, false, assume
+		}
 		c13One(c, replayStr(c, "input"), replayInt(c, "idx"), map[string]int64{})
 		return rule, false, assume
 	}
@@ -109,6 +184,8 @@ func checkC13(c *Ctx) (string, bool, []string) {
 		local["witness"]++
 		r.MergeCounts(local)
 	}
+	c13History(c, 1800)
+	c13Stream(c)
 	type job struct{ kind, mask int }
 	var jobs []job
 	for k, kd := range gen.Kinds {
